@@ -170,6 +170,69 @@ def unordered(v):
         return [unordered(x) for x in v]
     return v
 
+def val_to_py(v):
+    if isinstance(v, dict):
+        if 'd' in v: return {sc_py(k): val_to_py(x) for k, x in v['d']}
+        if 'l' in v: return [val_to_py(x) for x in v['l']]
+        if 'f' in v: return float(v['f'])
+    return v
+
+def frame_violation(case, base):
+    """"Paths that the newer document does not mention, and that are not below a deleting node of it, come out unchanged" - for two
+    untagged-root documents over the plain vocabulary: every scalar of the older document is followed down the newer one (an integer
+    key of a newer mapping that meets an older list names a position, negative ones from the end); where the newer document stops having
+    a child before the path ends, and every node of it on the way was a mapping that does not delete, the merged value is the older one"""
+    docs = case['docs']
+    if len(docs) != 2 or 'ok' not in base:
+        return None
+    txt = json.dumps([d['raw'] for d in docs])
+    if any(f'"k": "{k}"' in txt for k in ('prev', 'clear', 'append', 'extend', 'xref', 'eval', 'call', 'bind', 'required', 'callName', 'bindName')) or '"new"' in txt:
+        return None
+    older, newer = docs[0]['raw'], docs[1]['raw']
+    got = val_to_py(strip_ids(base['ok']))
+    def scalars(n, pre=()):
+        if 'm' in n:
+            for k, c in n['m']:
+                yield from scalars(c, pre + (sc_py(k),))
+        elif 'q' in n:
+            for i, c in enumerate(n['q']):
+                yield from scalars(c, pre + (i,))
+        elif 's' in n and not n.get('t') or (n.get('t') or {}).get('k') == 'plain':
+            yield pre, n
+    for path, leaf in scalars(older):
+        o, nw, ok = older, newer, True
+        for depth, comp in enumerate(path):
+            if 'm' not in nw or (nw.get('kw') or {}).get('del') is True or (nw.get('kw') or {}).get('prio') is not None or (o.get('kw') or {}).get('prio') is not None:
+                ok = False; break              # a deleting / list / scalar / prioritised node of the newer document on the way: other clauses
+            if 'q' in o:
+                hits = [c for k, c in nw['m'] if isinstance(sc_py(k), int) and not isinstance(sc_py(k), bool) and (sc_py(k) == comp or sc_py(k) == comp - len(o['q']))]
+                if any(not (isinstance(sc_py(k), int) and not isinstance(sc_py(k), bool) and -len(o['q']) <= sc_py(k) < len(o['q'])) for k, _ in nw['m']):
+                    ok = False; break          # a key that is no position of the list: an error of its own
+                if len([1 for k, _ in nw['m']]) != len({sc_py(k) % len(o['q']) for k, _ in nw['m']}):
+                    ok = False; break          # two spellings of one position (recorded finding D28)
+            else:
+                hits = [c for k, c in nw['m'] if sc_py(k) == comp and type(sc_py(k)) is type(comp)]
+            o = o['q'][comp] if 'q' in o else [c for k, c in o['m'] if sc_py(k) == comp][-1]
+            if not hits:
+                # the newer document does not mention the rest of the path
+                cur, found = got, True
+                for c2 in path:
+                    try:
+                        cur = cur[c2]
+                    except (KeyError, IndexError, TypeError):
+                        found = False; break
+                want = sc_py(leaf['s']['l']) if 'l' in leaf.get('s', {}) else None
+                if 'l' not in leaf.get('s', {}):
+                    break
+                if not found or type(cur) is not type(want) or cur != want:
+                    return (f'the newer document does not mention {list(path)} (it stops at {list(path[:depth])}) and no node of it on the way deletes, '
+                            f'yet the merged value there is {cur if found else "missing"!r}, the older document had {want!r}')
+                break
+            nw = hits[-1]
+        if not ok:
+            continue
+    return None
+
 def explicit_del_above(docs, path):
     """some later document carries an explicit `delete` on a mapping strictly above `path`"""
     for d in docs[1:]:
@@ -308,7 +371,8 @@ class C05(MergeFamProp):
             patch = []
             for ix in rng.sample(range(ln), rng.choice([1, 2])):
                 r = rng.random()
-                v = M([(rng.choice(['y', 'z']), S(rng.randrange(9)))], kw={'del': True}) if r < 0.5 else (Q([S(5)]) if r < 0.7 else S(30 + ix))
+                v = M([(rng.choice(['y', 'z']), S(rng.randrange(9)))], kw={'del': True}) if r < 0.35 else (
+                    M([(rng.choice(['x', 'y', 'z']), S(20 + rng.randrange(9)))]) if r < 0.6 else (Q([S(5)]) if r < 0.75 else S(30 + ix)))
                 patch.append((ix if rng.random() < 0.8 else ix - ln, v))
             newer = M([(top, M(patch))])
             gen[(len(gen) // 3 + i) % len(gen)] = {'docs': [{'raw': older}, {'raw': newer}], 'style': ['flow', 0, 0]}
@@ -457,6 +521,9 @@ class C05(MergeFamProp):
                     return f'adding the unrelated sibling key {sk!r} changed other paths: ' + d
         elif ('ok' in base) != ('ok' in s) and base.get('err') != 'merge' and s.get('err') != 'merge':
             return f'adding an unrelated sibling key changed the outcome: {base.get("err", "ok")} -> {s.get("err", "ok")}'
+        d = frame_violation(case, base)
+        if d:
+            return d
         ps = io.get('protsib')
         if ps is not None:
             ppath, pkey, _, pkw = case['psib']
